@@ -37,6 +37,22 @@ def r01a(ctx):
     frm, to = params[1], params[2]
     rem_attr, ins_attr = population_attr(ed.node, "Remove"), population_attr(ed.node, "Insert")
     if not rem_attr or not ins_attr:
+        # edits() is written in a form the clauses below do not read.  One necessary condition of a *positional* edit can still be
+        # decided: wherever an element of one side is paired with an element of the other, both are taken at the same index
+        for g_ in (init, ed):
+            for c in walk_no_nested(g_.node):
+                pair = None
+                if isinstance(c, ast.Call) and isinstance(c.func, ast.Attribute) and c.func.attr == "edits" and len(c.args) == 1:
+                    pair = (c.func.value, c.args[0])
+                elif isinstance(c, ast.Call) and call_name(c) in ("Match", "Replace") and len(c.args) >= 2:
+                    pair = (c.args[0], c.args[1])
+                if pair and all(isinstance(x, ast.Subscript) and not isinstance(x.slice, ast.Slice) for x in pair) \
+                        and ast.unparse(pair[0].value) != ast.unparse(pair[1].value) and ast.unparse(pair[0].slice) != ast.unparse(pair[1].slice):
+                    ctx.violation("R01a", g_.file, g_.short, c, "paired at the same index",
+                                  f"`{norm(c, 80)}` pairs element `{norm(pair[0].slice, 30)}` of one list with element `{norm(pair[1].slice, 30)}` of the "
+                                  f"other: with list edits switched off the k-th element may only be compared with the k-th, so this is an "
+                                  f"alignment the options exclude ([1, 2, 3] -> [2, 3] reported as one removal instead of two changes and a removal)")
+                    return
         raise Inconclusive("FixedLengthSequenceEdit.edits: cannot find the Remove/Insert populations")
     n = 0
     for attr, longer, shorter, what in ((rem_attr, frm, to, "removed"), (ins_attr, to, frm, "inserted")):
